@@ -22,6 +22,14 @@ RULE = (
     "alive); 2..16 threads parsing shuffled corpora with yield injection. distinct = blake2b(entry, predecessor entry, "
     "mode); non-trivial = the predecessor differs from the entry itself"
 )
+RULE += (
+    ' Also: a fresh-interpreter baseline in reversed order, cold-start races (threads as the first use of'
+    ' the library), twins through temporary buffers, several live readers with different options read'
+    ' alternately, socket-backed readers, alias entries (defined body under an undefined neighbouring'
+    ' number / sub-type), resume-after-error through one iterator, validate=0 / validate=1 twins back to'
+    ' back, integer-hash twins (masks differing by 2**61-1), payloads of EVERY length 2..140 under every'
+    ' identity, order-preserving digests of all definition / lookup tables at every stage.'
+)
 ASSUMPTIONS = [
     "refmodel expectation is history-free by construction; label values are taken from the first parse and "
     "cross-checked by C09",
